@@ -192,6 +192,8 @@ class Built(object):
         self.classes = []
         self.table = {}
         self.originals = None    # per spec: list of (content | None, cmd, args) captured after collection
+        self.brokers = None      # per spec: the host broker that collected it
+        self.hydration = None
         self.docs = None
         self.host_broker = None
         self.loaded_broker = None
@@ -213,6 +215,10 @@ def _answer(b, command, lines):
 
 
 def _save_as(mode, sid, n):
+    if mode == "empty":          # falsy but given: behaves like "no save_as"
+        return ""
+    if mode == "slash":          # everything is stripped by the factories / normalised by the serializers
+        return "/"
     if mode == "rename":
         return "ren/%s/out_%s" % (sid, n)
     if mode == "dir":
@@ -220,7 +226,7 @@ def _save_as(mode, sid, n):
     return None
 
 
-def build(specs, top, pool=None):
+def build(specs, top, pool=None, cls_suffix=""):
     """Creates the host root, the generated components and the output directory. Nothing runs yet."""
     e = env()
     sf, datasource, HostContext = e.sf, e.datasource, e.HostContext
@@ -235,7 +241,7 @@ def build(specs, top, pool=None):
         pass
     b.pool = pool
     serial = next(_SERIAL)
-    points, impls = {}, {}
+    points, impls, attrs = {}, {}, []
 
     def write_file(rel, lines):
         p = os.path.join(b.root, rel.lstrip("/"))
@@ -265,7 +271,10 @@ def build(specs, top, pool=None):
     for i, spec in enumerate(specs):
         kind, mode, elems = spec["kind"], spec.get("save_as", "none"), spec.get("elems", [])
         sid = "s%02d" % i
-        attr = "p%02d" % i
+        attr = spec.get("attr") or "p%02d" % i
+        if attr in points:
+            raise ValueError("duplicate attribute name %r" % attr)
+        attrs.append(attr)
         multi = kind not in SINGLE and kind != "fail"
         if kind in SINGLE and len(elems) != 1:
             raise ValueError("kind %s takes exactly one element" % kind)
@@ -276,16 +285,18 @@ def build(specs, top, pool=None):
                                  kind=sf.RawFileProvider if kind == "raw" else sf.TextFileProvider)
         elif kind == "cmd":
             b.table["/bin/echo %s" % sid] = text_of(elems[0]["lines"])
-            impl = e.simple_command("/bin/echo %s" % sid, save_as=_save_as(mode, sid, names[0]), context=HostContext)
+            impl = e.simple_command("/bin/echo %s" % sid, save_as=_save_as(mode, sid, names[0]), context=HostContext,
+                                    keep_rc=bool(spec.get("keep_rc")))
         elif kind == "cmd_real":
             p = write_file("/src/%s/%s" % (sid, names[0]), elems[0]["lines"])
             impl = e.simple_command("/bin/cat %s" % p, save_as=_save_as(mode, sid, names[0]), context=HostContext)
         elif kind in ("ds_list", "ds_str"):
             lines = [expand(l) for l in elems[0]["lines"]]
             content = lines if kind == "ds_list" else text_of(elems[0]["lines"])
-            impl = counted_fn(lambda broker, content=content, sid=sid, n=names[0], mode=mode: sf.DatasourceProvider(
+            impl = counted_fn(lambda broker, content=content, sid=sid, n=names[0], mode=mode, with_ctx=bool(spec.get("ctx")): sf.DatasourceProvider(
                 content=list(content) if isinstance(content, list) else content,
-                relative_path="ds/%s/%s" % (sid, n), save_as=_save_as(mode, sid, n)))
+                relative_path="ds/%s/%s_%s" % (sid, n, sid), save_as=_save_as(mode, sid, n),     # base name unique per spec:
+                ctx=broker[HostContext] if with_ctx else None))                                 # save_as "/" keeps only the base name
         elif kind == "m_ds":
             impl = counted_fn(lambda broker, elems=elems, sid=sid, mode=mode: [sf.DatasourceProvider(
                 content=[expand(l) for l in el["lines"]], relative_path="ds/%s/%s" % (sid, el["n"]),
@@ -301,7 +312,7 @@ def build(specs, top, pool=None):
                 vals.append(a)
                 _answer(b, template % a, el["lines"])
             src = source(vals)
-            impl = e.foreach_execute(src, template, context=HostContext)
+            impl = e.foreach_execute(src, template, context=HostContext, keep_rc=bool(spec.get("keep_rc")))
         elif kind == "cmd_args":
             a = _arg_of(elems[0], names[0])
             template = "/bin/echo %s" % sid + " %s" * spec.get("placeholders", 1)
@@ -319,7 +330,10 @@ def build(specs, top, pool=None):
                 raise ValueError("m_glob elements must be listed in sorted name order")
             for el in elems:
                 write_file("/src/%s/%s" % (sid, el["n"]), el["lines"])
-            impl = e.glob_file("/src/%s/*" % sid, save_as=_save_as(mode, sid, "") if mode == "dir" else None, context=HostContext)
+            nested = [("/" in n) for n in names]
+            if any(nested) and not all(nested):
+                raise ValueError("m_glob: either all or no element names are nested")
+            impl = e.glob_file("/src/%s/%s" % (sid, "*/*" if any(nested) else "*"), save_as=_save_as(mode, sid, "") if mode == "dir" else None, context=HostContext)
         elif kind == "cfile":
             for el in elems:
                 b.table["/usr/bin/env exec cid%s%s cat /cpath/%s/%s" % (sid, el["n"], sid, el["n"])] = text_of(el["lines"])
@@ -349,13 +363,12 @@ def build(specs, top, pool=None):
 
     pts = dict(points)
     pts["__module__"] = MODULE
-    S = type("S%06d" % serial, (sf.SpecSet,), pts)
+    S = type("S%06d%s" % (serial, cls_suffix), (sf.SpecSet,), pts)
     imp = dict(impls)
     imp["__module__"] = MODULE
-    D = type("D%06d" % serial, (S,), imp)
+    D = type("D%06d%s" % (serial, cls_suffix), (S,), imp)
     b.classes = [S, D]
-    for i in range(len(specs)):
-        attr = "p%02d" % i
+    for attr in attrs:
         b.points.append(points[attr])
         b.impls.append(impls[attr])
     b.comps.extend(b.points)
@@ -380,32 +393,54 @@ def _content(e, prov):
     return c if isinstance(c, bytes) else list(c)
 
 
-def collect(b):
-    """Real evaluation with the Hydration persister observing the broker, as insights.collect does."""
+def collect(b, only=None):
+    """Real evaluation with the Hydration persister observing the broker, as insights.collect does.
+    only = spec indices to evaluate and persist in this run (default all); several runs may share the archive."""
     e = env()
     dr = e.dr
+    idx = list(range(len(b.points))) if only is None else list(only)
     ctx = e.RecCtx(b.root, b.table)
     broker = dr.Broker()
     broker[e.HostContext] = ctx
     h = e.serde.Hydration(b.out, ctx, pool=b.pool)
-    broker.add_observer(h.make_persister(set(b.points)))
-    dr.run(graph_of(b), broker)
+    broker.add_observer(h.make_persister(set(b.points[i] for i in idx)))
+    g = {}
+    for i in idx:
+        g.update(dr.get_dependency_graph(b.points[i]))
+    dr.run(g, broker)
     b.ctx = ctx
     b.host_broker = broker
-    b.originals = []
-    b.docs = []
-    for i, p in enumerate(b.points):
-        v = broker.get(p)
+    b.hydration = h
+    if b.originals is None:
+        b.originals = [None] * len(b.points)
+        b.docs = [None] * len(b.points)
+        b.brokers = [None] * len(b.points)
+    for i in idx:
+        v = broker.get(b.points[i])
         provs = v if isinstance(v, list) else ([] if v is None else [v])
-        b.originals.append({"is_list": isinstance(v, list),
-                            "elems": [(_content(e, q), q.cmd, q.args) for q in provs]})
+        b.originals[i] = {"is_list": isinstance(v, list),
+                          "elems": [(_content(e, q), q.cmd, q.args) for q in provs]}
+        b.brokers[i] = broker
+    read_docs(b)
+    return b
+
+
+def read_docs(b):
+    for i in range(len(b.points)):
         path = meta_path(b, i)
         doc = None
-        if os.path.exists(path):
+        if os.path.isfile(path):
             with open(path) as fh:
                 doc = json.load(fh)
-        b.docs.append(doc)
-    return b
+        b.docs[i] = doc
+
+
+def expected_errors(b, i):
+    """Tracebacks of every exception the collecting broker holds for spec i's registry point."""
+    broker = b.brokers[i]
+    if broker is None:
+        return []
+    return [broker.tracebacks.get(ex) for ex in broker.exceptions.get(b.points[i], [])]
 
 
 def meta_path(b, i, out=None):
@@ -479,13 +514,18 @@ def meta_names(b, order=None):
     return out
 
 
-def load(b, out=None, order=None):
-    """Real loading: archive detection + hydrate into a fresh broker. The order in which hydrate meets the
-    metadata entries is `order` (spec indices; default: index order)."""
+def load(b, out=None, order=None, broker=None, direct=False):
+    """Real loading: archive detection + hydrate into a fresh (or the given) broker. The order in which hydrate
+    meets the metadata entries is `order` (spec indices; default: index order).
+    direct=True: Hydration(root, ctx).hydrate(broker) is called without initialize_broker."""
     e = env()
     out = out or b.out
     with listing_order(os.path.join(out, "meta_data"), meta_names(b, order)):
-        ctx, broker = e.hydration.initialize_broker(out)
+        if direct:
+            ctx = e.SerializedArchiveContext(out)
+            broker = e.serde.Hydration(root=out, ctx=ctx).hydrate(broker)
+        else:
+            ctx, broker = e.hydration.initialize_broker(out, broker=broker)
     return ctx, broker
 
 
@@ -499,35 +539,47 @@ def rerun(b, broker):
     return [e.calls.get(impl, 0) - before.get(impl, 0) for impl in b.impls]
 
 
+def _table(mod, name):
+    return getattr(mod, name, None)
+
+
 def cleanup(b):
-    """Removes every generated component from every global table it may have reached."""
+    """Removes every generated component from every global table it may have reached. Tables are looked up by
+    name and skipped when a refactoring removed them."""
     e = env()
     dr, filters = e.dr, e.filters
     comps = list(b.comps)
     cs = set(comps)
+    dicts = [_table(dr, n) for n in ("DELEGATES", "DEPENDENCIES", "DEPENDENTS", "MODULE_NAMES", "BASE_MODULE_NAMES",
+                                     "ENABLED", "IGNORE")]
+    dicts += [_table(filters, n) for n in ("_CACHE", "FILTERS")]
+    groups = _table(dr, "COMPONENTS")
+    if isinstance(groups, dict):
+        dicts += list(groups.values())
+    for d in dicts:
+        if isinstance(d, dict):
+            for c in comps:
+                d.pop(c, None)
+    hidden = _table(dr, "HIDDEN")
+    if isinstance(hidden, set):
+        hidden -= cs
+    by_type = _table(dr, "COMPONENTS_BY_TYPE")
+    if isinstance(by_type, dict):
+        for st in by_type.values():
+            st -= cs
+    deps = _table(dr, "DEPENDENTS")
+    if isinstance(deps, dict) and e.HostContext in deps:
+        deps[e.HostContext] -= cs
+    by_name = _table(dr, "COMPONENTS_BY_NAME")
+    if isinstance(by_name, dict):
+        for k in [k for k in by_name if isinstance(k, str) and k.startswith(MODULE + ".")]:
+            del by_name[k]
     for c in comps:
-        dr.DELEGATES.pop(c, None)
-        dr.DEPENDENCIES.pop(c, None)
-        dr.DEPENDENTS.pop(c, None)
-        for g in dr.COMPONENTS.values():
-            g.pop(c, None)
-        dr.MODULE_NAMES.pop(c, None)
-        dr.BASE_MODULE_NAMES.pop(c, None)
-        dr.ENABLED.pop(c, None)
-        dr.IGNORE.pop(c, None)
-        dr.HIDDEN.discard(c)
-        filters._CACHE.pop(c, None)
-        filters.FILTERS.pop(c, None)
         e.calls.pop(c, None)
-    for s in dr.COMPONENTS_BY_TYPE.values():
-        s -= cs
-    for k in (e.HostContext,):
-        if k in dr.DEPENDENTS:
-            dr.DEPENDENTS[k] -= cs
-    for k in [k for k in dr.COMPONENTS_BY_NAME if isinstance(k, str) and k.startswith(MODULE + ".")]:
-        del dr.COMPONENTS_BY_NAME[k]
     b.comps = []
     b.host_broker = None
+    b.brokers = None
+    b.hydration = None
 
 
 def copy_archive(b, dst):
